@@ -30,6 +30,7 @@ func init() {
 		spaces[p+".loaded"] = func(t string) mck.Space { return loadedElemSpace(v9) }
 		spaces[p+".counts"] = func(t string) mck.Space { return countsSpace(v9, t) }
 		spaces[p+".typeinfo"] = func(t string) mck.Space { return typeInfoSpace(v9) }
+		spaces[p+".valsweep"] = func(t string) mck.Space { return valSweepSpace(v9, t) }
 	}
 }
 
@@ -662,5 +663,64 @@ func typeInfoSpace(v9 bool) mck.Space {
 		if idx%211 == 0 {
 			c.Sample(desc)
 		}
+	}}
+}
+
+// valSweepSpace: EVERY value of elements whose natural size is one or two octets (quick: the first element of
+// each such type and the well-known 16-bit ones - ports, AS numbers, VLAN ids, ICMP type/code; thorough: every
+// such element of the model) in front of an ordinary field. A value that is singled out for special treatment
+// shows only when that very value is tried.
+func valSweepSpace(v9 bool, tier string) mck.Space {
+	flowh.InstallExtra()
+	well := map[uint16]bool{4: true, 5: true, 6: true, 7: true, 11: true, 16: true, 17: true, 32: true, 58: true, 59: true, 9: true, 13: true}
+	by := flowh.ElemByType()
+	first := map[uint16]bool{}
+	for _, id := range by {
+		first[id] = true
+	}
+	type el struct {
+		id uint16
+		n  int
+	}
+	var els []el
+	for _, k := range flowh.ModelKeys() {
+		if k[0] != 0 || k[1] >= 30000 {
+			continue
+		}
+		id := uint16(k[1])
+		if n := flowh.TypeOf(0, id).NaturalLen(); n == 1 || n == 2 {
+			if tier == "thorough" || well[id] || first[id] {
+				els = append(els, el{id, n})
+			}
+		}
+	}
+	f2 := ref.Field{ID: by[ref.TU32], Len: 4, Type: ref.TU32}
+	dims := mck.Radix{uint64(len(els)), 65536}
+	name := "ipfix"
+	if v9 {
+		name = "v9"
+	}
+	return mck.FuncSpace{N: dims.Size(), F: func(idx uint64, c *mck.Ctx) {
+		d := dims.Digits(idx)
+		e := els[d[0]]
+		if e.n == 1 && d[1] > 255 {
+			c.Skip()
+			return
+		}
+		at := flowh.TypeOf(0, e.id)
+		if at == ref.TBool && d[1] != 1 && d[1] != 2 {
+			c.Skip() // well-formed booleans are 1 and 2
+			return
+		}
+		raw := []byte{byte(d[1])}
+		if e.n == 2 {
+			raw = []byte{byte(d[1] >> 8), byte(d[1])}
+		}
+		t := ref.Template{ID: 300, Fields: []ref.Field{{ID: e.id, Len: uint16(e.n), Type: at}, f2}}
+		tpls := map[uint16]ref.Template{300: t}
+		fc := &flowCase{V9: v9, Tpls: tpls, Desc: fmt.Sprintf("element %d (%s) = %d", e.id, ref.ATypeNames[at], d[1])}
+		fc.Msg = &ref.Msg{V9: v9, Hdr: hdrFor(v9, 2), Sets: []ref.Set{{Kind: ref.SetTemplates, Templates: []ref.Template{t}}, {Kind: ref.SetData, TemplateID: 300, Records: []ref.Record{{{Raw: raw}, {Raw: []byte{1, 2, 3, 4}}}}}}}
+		runFlowCase(c, fc, name+":valsweep")
+		c.Nontrivial(fc.hash)
 	}}
 }
